@@ -213,6 +213,14 @@ class SimFS(object):
         return self.open(path, "r", encoding=encoding, newline=newline)
 
 
+class _NullLog(object):
+    def write(self, text):
+        return len(text)
+
+    def flush(self):
+        pass
+
+
 class _Proxy(object):
     """Module stand-in: listed attributes overridden, everything else from the real module."""
 
@@ -257,6 +265,10 @@ class Seams(object):
             if isinstance(filename, str) and "file_contents" not in kwargs:
                 with fs.open_binary(filename, "r") as stream:
                     contents = stream.read()
+                if not contents:
+                    # what xlrd does for an empty file it opened itself (file_contents=b"" would send it to the real disk)
+                    raise xlrd.XLRDError("File size is 0 bytes")
+                kwargs.setdefault("logfile", _NullLog())  # xlrd prints warnings about odd files to stdout
                 return xlrd.open_workbook(filename=filename, file_contents=contents, *args, **kwargs)
             return xlrd.open_workbook(filename, *args, **kwargs)
 
